@@ -582,7 +582,63 @@ def check_db_iter(ctx):
                   "forward: the child's current entry; backward: the saved entry", "%s returns %s" % (fname, [k2 for k2, a in rets]))
 
 
+def check_block_seek(ctx):
+    """Block iterator seek: the restart-point binary search keeps
+    `key(left) < target <= key(right + 1)`: the lower bound moves up only past
+    a restart key that compares below the target, the upper bound moves down
+    otherwise, the midpoint is the upper one (the loop ends), and the final
+    scan stops at the first key that does not compare below the target."""
+    BLK = "src/table/block.c"
+    f = ctx.fn("ldb_blockiter_seek", BLK)
+    g = xgraph(ctx.P, f)
+    rows = [("left", "mid", [("<", "re:do_compare\\(iter, \\(&mid_key\\), target\\)#\\d+", "0")], "the lower bound moves to a restart key below the target"),
+            ("right", "(mid - 1)", [(">=", "re:do_compare\\(iter, \\(&mid_key\\), target\\)#\\d+", "0")], "the upper bound moves below a restart key at or above the target"),
+            ("left", "iter->restart_index", [("<", "current_key_compare", "0")], "the current position is a lower bound only if its key is below the target"),
+            ("right", "iter->restart_index", [(">", "current_key_compare", "0")], "the current position is an upper bound only if its key is above the target")]
+    for var, rhs, guard, what in rows:
+        sts = [(b, i, e) for (b, i, e) in f.events("asg") if key(e["lhs"]) == var and key(e["rhs"]) == rhs]
+        if not sts:
+            ctx.bad("T2-block-seek", "%s=%s" % (var, rhs), f.name, f.loc, "no store `%s = %s`: %s" % (var, rhs, what))
+            continue
+        for b, i, e in sts:
+            atoms = g.must_at(b, i)
+            ctx.check(all(holds(atoms, a) for a in guard), "T2-block-seek", "%s=%s@%s" % (var, rhs, e["l"].split(":")[1]), f.name, site(f, e),
+                      what, "`%s = %s` is reachable under %s" % (var, rhs, fmt_atoms(atoms)), subject="%s=%s" % (var, rhs))
+    other = [(key(e["lhs"]), key(e["rhs"])) for b, i, e in f.events("asg") if key(e["lhs"]) in ("left", "right") and
+             (key(e["lhs"]), key(e["rhs"])) not in {(r[0], r[1]) for r in rows} | {("left", "0"), ("right", "(iter->num_restarts - 1)")}]
+    ctx.check(not other, "T2-block-seek", "bounds-stores", f.name, f.loc, "the search bounds are only moved by the four rules above",
+              "other stores to the search bounds: %s" % other)
+    ctx.check(_defs(f, "mid") == ["(((left + right) + 1) / 2)"], "T2-block-seek", "upper-midpoint", f.name, f.loc,
+              "the midpoint rounds up (with `left = mid` the interval always shrinks)", "midpoint is %s" % _defs(f, "mid"))
+    ctx.check(_defs(f, "current_key_compare")[-1:] == ["do_compare(iter, (&iter->key), target)"] or
+              "do_compare(iter, (&iter->key), target)" in _defs(f, "current_key_compare"), "T2-block-seek", "current-compare", f.name, f.loc,
+              "the current position is compared with the target", "current_key_compare is %s" % _defs(f, "current_key_compare"))
+    # final scan: returns at the first key >= target (or at the end)
+    from ..rules import must_cross_edge_before, rel_edge
+    rets = [(b, i, e) for (b, i, e) in f.events("ret")]
+    tail = sequences_under(f, lambda e: ("parse",) if is_call(e, "parse_next_key") else (("ret",) if e["e"] == "ret" else None),
+                           _db_valuation(f, {"cmp": -1, "call:parse_next_key": 1}),
+                           start=lambda e: is_call(e, "seek_to_restart_point"))
+    ctx.check(bool(tail) and all(s and s[-1] == "<loop>" for s in tail), "T2-block-seek", "scan-continues-below-target", f.name, f.loc,
+              "the final scan keeps going while the key is below the target", "final scan under key < target: %s" % _fmt(tail))
+    for sign, name in ((0, "equal to"), (1, "above")):
+        t2 = sequences_under(f, lambda e: ("parse",) if is_call(e, "parse_next_key") else (("ret",) if e["e"] == "ret" else None),
+                             _db_valuation(f, {"cmp": sign, "call:parse_next_key": 1}), start=lambda e: is_call(e, "seek_to_restart_point"))
+        ctx.check(t2 == {(("parse",), ("ret",))}, "T2-block-seek", "scan-stops-at-key-%s-target" % name.split()[0], f.name, f.loc,
+                  "the final scan stops at the first key %s the target" % name, "final scan under key %s target: %s" % (name, _fmt(t2)))
+    st = [(b, i, e) for (b, i, e) in f.events("call") if is_call(e, "do_compare") and argkey(e, 1) == "&iter->key"]
+    ctx.check(len(st) == 2 and all(argkey(e, 2) == "target" for b, i, e in st), "T2-block-seek", "scan-compares-target", f.name, f.loc,
+              "the scan compares the current key with the target", "scan comparisons: %s" % [(argkey(e, 1), argkey(e, 2)) for b, i, e in st])
+    sk = [(b, i, e) for (b, i, e) in f.events("call") if is_call(e, "seek_to_restart_point")]
+    ctx.check(len(sk) == 1 and argkey(sk[0][2], 1) == "left", "T2-block-seek", "scan-starts-at-left", f.name, f.loc,
+              "the scan starts at the restart point found", "scan starts at %s" % [argkey(e, 1) for b, i, e in sk])
+    ctx.check(_defs(f, "skip_seek") == ["((left == iter->restart_index) && (current_key_compare < 0))"], "T2-block-seek", "skip-seek", f.name, f.loc,
+              "the current position is reused only if it lies in the found restart block below the target",
+              "skip_seek is %s" % _defs(f, "skip_seek"))
+
+
 def check(ctx):
+    check_block_seek(ctx)
     check_db_iter(ctx)
     check_seek_helpers(ctx)
     check_merger(ctx)
